@@ -56,6 +56,7 @@ func runC14(c *core.Ctx) {
 		guardedBy(c, lc13, newEntryLocks(c, lc13), "C13.table", guardedField{Rel: "bus", Struct: "signalHandler", Field: "signals", Mutex: "signalsMutex",
 			Reason: "registrations are added/removed by the mailbox goroutine, by disconnect closers and read by emitters"})
 		ruleInferredGuards(c, lc13, newEntryLocks(c, lc13), "C13.table")
+		ruleNoStaleElementPointerInBus(c, "C13.table")
 	}
 	if a := getEP(c, "C14.anchors"); a != nil {
 		c.Doc("C13.forwarding", "subscribers are forwarded Event messages only, in order, channel closed once", 6)
